@@ -451,6 +451,8 @@ class Program:
                     elif k == "crate":
                         self.crates[r["crate"]] = r["bodies"]
         self._cg = None
+        self._bc = {}
+        self._be = {}
         self._impls = None
         self._closures_of = None
 
@@ -484,117 +486,71 @@ class Program:
     def promoted_of(self, fid):
         return [b for i, b in self.bodies.items() if i.startswith(fid + "::{promoted#")]
 
-    # ---- call graph
-    def callgraph(self):
-        """caller -> set(callee) over bodies of the analysed crates *and* external def paths.
-        Edges: resolved direct calls; virtual / unresolved trait-method calls -> every impl of
-        that trait method in the analysed crates (CHA) plus the method itself; a closure is
-        called by the function that creates it (over-approximation: creation = call);
-        function items used as values are called by the user."""
-        if self._cg is not None:
-            return self._cg
+    # ---- per-block call targets and effects
+    def block_calls(self, b):
+        """block -> set of callee ids of one body (CHA-expanded). Edges: resolved direct calls;
+        virtual / unresolved trait-method calls -> every impl of that trait method in the
+        analysed crates plus the method itself; a closure is called by the function that creates
+        it (over-approximation: creation = call); fn items used as values likewise."""
+        c = self._bc.get(b.id)
+        if c is not None:
+            return c
         impls = self.impls()
-        cg = defaultdict(set)
+        out = {}
 
-        def add_callee(src, d):
-            cg[src].add(d)
+        def add_callee(bi, d):
+            out.setdefault(bi, set()).add(d)
             if d in impls:
-                for i in impls[d]:
-                    cg[src].add(i)
+                out[bi].update(impls[d])
 
-        def scan_op(src, o):
+        def scan_op(bi, o):
             if "fn" in o:
-                add_callee(src, o["fn"])
+                add_callee(bi, o["fn"])
             elif "closure" in o:
-                cg[src].add(o["closure"])
+                out.setdefault(bi, set()).add(o["closure"])
 
-        for b in self.bodies.values():
-            if b.kind in ("promoted", "const", "static"):
-                continue
-            live = b.live_blocks()
-            cg[b.id]  # ensure key
-            for bi in live:
-                blk = b.blocks[bi]
-                for st in blk["st"]:
-                    if st["s"] != "assign":
-                        continue
-                    r = st["r"]
-                    rv = r["rv"]
-                    if rv == "agg":
-                        k = r["kind"]
-                        if isinstance(k, dict) and "closure" in k:
-                            cg[b.id].add(k["closure"])
-                        for o in r["ops"]:
-                            scan_op(b.id, o)
-                    elif rv in ("use", "cast", "repeat"):
-                        scan_op(b.id, r["o"])
-                t = blk["term"]
-                if t["t"] == "call":
-                    f = t["f"]
-                    if "def" in f:
-                        add_callee(b.id, f["def"])
-                    else:
-                        scan_op(b.id, f["op"])
-                    for a in t["args"]:
-                        scan_op(b.id, a)
-        self._cg = cg
-        return cg
+        for bi in sorted(b.live_blocks()):
+            blk = b.blocks[bi]
+            for st in blk["st"]:
+                if st["s"] != "assign":
+                    continue
+                r = st["r"]
+                rv = r["rv"]
+                if rv == "agg":
+                    k = r["kind"]
+                    if isinstance(k, dict) and "closure" in k:
+                        out.setdefault(bi, set()).add(k["closure"])
+                    for o in r["ops"]:
+                        scan_op(bi, o)
+                elif rv in ("use", "cast", "repeat"):
+                    scan_op(bi, r["o"])
+            t = blk["term"]
+            if t["t"] == "call":
+                f = t["f"]
+                if "def" in f:
+                    add_callee(bi, f["def"])
+                else:
+                    scan_op(bi, f["op"])
+                for a in t["args"]:
+                    scan_op(bi, a)
+        self._bc[b.id] = out
+        return out
 
-    def reachable_from(self, roots, stop=()):
-        """bodies/def paths reachable from roots in the call graph, not expanding `stop`"""
-        cg = self.callgraph()
-        stop = set(stop)
-        seen = set()
-        dq = deque(r for r in roots)
-        while dq:
-            u = dq.popleft()
-            if u in seen:
-                continue
-            seen.add(u)
-            if u in stop:
-                continue
-            for v in cg.get(u, ()):
-                if v not in seen:
-                    dq.append(v)
-        return seen
-
-    def callers_of(self, target):
-        cg = self.callgraph()
-        return sorted(c for c, s in cg.items() if target in s)
-
-    def call_path(self, src, dst, stop=()):
-        """one shortest call path src -> dst (list of ids) or None"""
-        cg = self.callgraph()
-        stop = set(stop)
-        prev = {src: None}
-        dq = deque([src])
-        while dq:
-            u = dq.popleft()
-            if u == dst:
-                out = []
-                while u is not None:
-                    out.append(u)
-                    u = prev[u]
-                return list(reversed(out))
-            if u in stop and u != src:
-                continue
-            for v in sorted(cg.get(u, ())):
-                if v not in prev:
-                    prev[v] = u
-                    dq.append(v)
-        return None
-
-    # ---- effects
-    def own_effects(self, b):
-        """(writes, mutcalls, reads) of one body.
+    def block_effects(self, b):
+        """block -> (writes, mutcalls, reads) of one body.
         writes: set of (adt, field) assigned (deepest named field of an assigned place, plus
                 destinations of calls);
         mutcalls: set of ((adt, field), callee) where `&mut place.field` is passed to callee;
         reads: set of (adt, field) appearing in any operand / borrowed place."""
-        writes, mutcalls, reads = set(), set(), set()
+        c = self._be.get(b.id)
+        if c is not None:
+            return c
+        out = {}
         mutref = {}  # local -> place it mutably borrows
-        live = b.live_blocks()
-        for bi in sorted(live):
+        live = sorted(b.live_blocks())
+        for bi in live:
+            writes, mutcalls, reads = set(), set(), set()
+            out[bi] = (writes, mutcalls, reads)
             blk = b.blocks[bi]
             for st in blk["st"]:
                 if st["s"] == "setdiscr":
@@ -642,8 +598,7 @@ class Program:
                 if p:
                     for f in place_fields(p):
                         reads.add(f)
-            elif t["t"] == "drop":
-                pass
+
         # resolve &mut temps passed to calls (through moves / reborrows)
         def origin(l, depth=6):
             if depth == 0:
@@ -652,8 +607,6 @@ class Program:
                 pl = mutref[l]
                 if len(pl) >= 2 and pl[1] == "*" and not place_fields(pl):
                     return origin(pl[0], depth - 1)
-                if len(pl) >= 2 and pl[1] == "*":
-                    return pl
                 return pl
             ds = b.defs().get(l, [])
             if len(ds) == 1 and ds[0][2] == "assign" and ds[0][3]["rv"] == "use":
@@ -662,7 +615,7 @@ class Program:
                     return origin(p[0], depth - 1)
             return None
 
-        for bi in sorted(live):
+        for bi in live:
             t = b.blocks[bi]["term"]
             if t["t"] != "call":
                 continue
@@ -674,36 +627,107 @@ class Program:
                     if o:
                         fs = place_fields(o)
                         if fs:
-                            mutcalls.add((fs[-1], d))
+                            out[bi][1].add((fs[-1], d))
+        self._be[b.id] = out
+        return out
+
+    def _is_code(self, b):
+        return b.kind not in ("promoted", "const", "static")
+
+    # ---- call graph
+    def callgraph(self):
+        """caller -> set(callee) over bodies of the analysed crates *and* external def paths"""
+        if self._cg is not None:
+            return self._cg
+        cg = defaultdict(set)
+        for b in self.bodies.values():
+            if not self._is_code(b):
+                continue
+            cg[b.id]
+            for s in self.block_calls(b).values():
+                cg[b.id].update(s)
+        self._cg = cg
+        return cg
+
+    def reachable_from(self, roots, stop=(), exclude=None):
+        """bodies/def paths reachable from roots in the call graph, not expanding `stop`;
+        exclude: body id -> set of blocks whose calls are ignored"""
+        stop = set(stop)
+        seen = set()
+        dq = deque(r for r in roots)
+        cg = self.callgraph()
+        while dq:
+            u = dq.popleft()
+            if u in seen:
+                continue
+            seen.add(u)
+            if u in stop:
+                continue
+            if exclude and u in exclude and u in self.bodies:
+                succ = set()
+                for bi, s in self.block_calls(self.bodies[u]).items():
+                    if bi not in exclude[u]:
+                        succ.update(s)
+            else:
+                succ = cg.get(u, ())
+            for v in succ:
+                if v not in seen:
+                    dq.append(v)
+        return seen
+
+    def callers_of(self, target):
+        cg = self.callgraph()
+        return sorted(c for c, s in cg.items() if target in s)
+
+    def call_path(self, src, dst, stop=()):
+        """one shortest call path src -> dst (list of ids) or None"""
+        cg = self.callgraph()
+        stop = set(stop)
+        prev = {src: None}
+        dq = deque([src])
+        while dq:
+            u = dq.popleft()
+            if u == dst:
+                out = []
+                while u is not None:
+                    out.append(u)
+                    u = prev[u]
+                return list(reversed(out))
+            if u in stop and u != src:
+                continue
+            for v in sorted(cg.get(u, ())):
+                if v not in prev:
+                    prev[v] = u
+                    dq.append(v)
+        return None
+
+    # ---- effects
+    def own_effects(self, b, exclude_blocks=()):
+        writes, mutcalls, reads = set(), set(), set()
+        for bi, (w, m, r) in self.block_effects(b).items():
+            if bi in exclude_blocks:
+                continue
+            writes |= w
+            mutcalls |= m
+            reads |= r
         return writes, mutcalls, reads
 
-    def effects(self):
-        """per body id: dict(writes=set, mutcalls=set, reads=set) — own effects only"""
-        if not hasattr(self, "_eff"):
-            self._eff = {}
-            for i, b in self.bodies.items():
-                if b.kind in ("promoted", "const", "static"):
-                    continue
-                w, m, r = self.own_effects(b)
-                self._eff[i] = dict(writes=w, mutcalls=m, reads=r)
-        return self._eff
-
-    def transitive_effects(self, roots, stop=()):
-        """union of own effects over everything reachable from roots; returns dict with the
-        contributing function for each effect (first found, for reporting)"""
-        eff = self.effects()
-        reach = self.reachable_from(roots, stop)
+    def transitive_effects(self, roots, stop=(), exclude=None):
+        """union of own effects over everything reachable from roots; each effect maps to the
+        first contributing function (for reporting). exclude: body id -> blocks ignored."""
+        reach = self.reachable_from(roots, stop, exclude)
         writes, mutcalls, reads = {}, {}, {}
         for f in sorted(reach):
-            e = eff.get(f)
-            if not e:
+            b = self.bodies.get(f)
+            if b is None or not self._is_code(b):
                 continue
-            for w in e["writes"]:
-                writes.setdefault(w, f)
-            for m in e["mutcalls"]:
-                mutcalls.setdefault(m, f)
-            for r in e["reads"]:
-                reads.setdefault(r, f)
+            w, m, r = self.own_effects(b, (exclude or {}).get(f, ()))
+            for x in w:
+                writes.setdefault(x, f)
+            for x in m:
+                mutcalls.setdefault(x, f)
+            for x in r:
+                reads.setdefault(x, f)
         return dict(writes=writes, mutcalls=mutcalls, reads=reads, reach=reach)
 
     # ---- SCCs
